@@ -463,6 +463,10 @@ static void DecodeDATA_AVR(Word Index) {
                         PlaceValue(t.Contents.Int, Packing);
                     }
                     break;
+                case TempReg:
+                    WrStrErrorPos(ErrNum_ExpectIntOrString, &ArgStr[z]);
+                    OK = False;
+                    break;
                 case TempFloat:
                     WrStrErrorPos(ErrNum_StringOrIntButFloat, &ArgStr[z]);
                     /* fall-through */
